@@ -272,7 +272,11 @@ impl TypeChecker {
                     for ((_, param_name, _), arg) in type_parameters.iter().zip(type_args.iter()) {
                         let arg_type = self.type_from_annotation(arg)?;
                         concrete_type_args.push(arg_type.clone());
-                        substitution.append(TypeVariable::new(param_name), arg_type);
+                        // the type arguments replace the parameters simultaneously: `append` would
+                        // compose the bindings (for `Pair<B, A>` it turns `A := B, B := A` into `A := A`)
+                        substitution
+                            .0
+                            .push((TypeVariable::new(param_name), arg_type));
                     }
 
                     // Create instantiated struct with substituted field types
